@@ -1,5 +1,9 @@
 #!/bin/sh
-# MANIFEST.setup_cmd: build the framework tools offline.
+# MANIFEST.setup_cmd: build the framework tools offline from files on disk.
 set -e
 cd "$(dirname "$0")"
-exit 0
+export GOFLAGS=-mod=mod GOPROXY=off GOSUMDB=off GOTOOLCHAIN=local
+mkdir -p bin evidence replays
+(cd tools/simrewrite && go build -o ../../bin/simrewrite .)
+(cd simrt && go vet . && go test -count=1 . >/dev/null)
+echo "setup ok"
